@@ -309,6 +309,23 @@ def run(ck: Check):
                                 "faults": {}, "leaderless": [],
                                 "migrations": [{"at": m, "partition": 0, "to": 1}], "resolve_within": 30})
                     k += 1
+    # the same window for an acks=0 producer: there is no reply to wait for, so the batch gets into its retry back-off
+    # only through a request-level failure (the old leader is down: the connection is refused); the
+    # partition must stay muted through the back-off all the same
+    for m in (0.05, 0.08):
+        for mg in (0.002, 0.005, 0.01):       # the election completes shortly after the old leader went down
+            for d1 in (0.01, 0.03, 0.06, 0.09):
+                scs.append({"id": k, "seed": k, "brokers": 2, "partitions": 1, "ts_type": 0, "idempotent": False,
+                            "acks": 0, "linger_ms": 0, "max_batch_size": 16384, "compression": None,
+                            "request_timeout_ms": 2000, "retry_backoff_ms": 100, "latency": [0.001, 0.002],
+                            "tasks": [[{"rid": 0, "p": 0, "sleep": 0.0},
+                                       {"rid": 1, "p": 0, "sleep": round(m + 0.0005, 6)},
+                                       {"rid": 2, "p": 0, "sleep": round(d1, 6)},
+                                       {"rid": 3, "p": 0, "sleep": 0.3}]],
+                            "faults": {}, "leaderless": [], "outages": [{"at": m, "nodes": [0], "for": 5.0}],
+                            "migrations": [{"at": round(m + mg, 6), "partition": 0, "to": 1}], "resolve_within": 30,
+                            "family": "acks0-failover-in-backoff"})
+                k += 1
     results = prodsim.run_scenarios(scs, timeout=ck.n(600, 2400))
     traces = []
     hist = {"faults": {}, "idempotent": 0, "nonidempotent": 0, "retries": 0, "duplicates": 0, "failed_runs": 0}
@@ -322,6 +339,13 @@ def run(ck: Check):
         for f in (sc.get("faults") or {}).values():
             hist["faults"][f["kind"]] = hist["faults"].get(f["kind"], 0) + 1
         nbad += monitor(ck, sc, r)
+        if sc.get("acks") == 0:
+            # acks=0: futures are resolved when the request is written, before the leader sees it; the life-cycle model
+            # (reply after arrival) does not describe that - these runs are judged by the monitors (order, no stray or
+            # duplicated-in-part records) only
+            hist["acks0_monitor_only"] = hist.get("acks0_monitor_only", 0) + 1
+            ck.count(key=("acks0", sc["id"]), nontrivial=bool(sc.get("faults")))
+            continue
         for part in range(sc["partitions"]):
             tr, verdicts = prodsim.project(r, part)
             hist["retries"] += sum(1 for e in tr if e[0] == "ReplyRetry")
